@@ -130,7 +130,7 @@ def opRt1 (rest : String) : Option String :=
     let same := match V1.parseStr text with
       | .ok h => h.header == text && h.display == text
       | .error _ => false
-    some s!"text={hexOf text} len={text.length} b={b} s={s} fh={fh} fa={fa} same={b01 same}"
+    some s!"text={hexOf text} len={text.length} b={b} s={s} fh={fh} fa={fa} same={b01 same} spec=1"
 
 -- ---------------------------------------------------------------- std
 
